@@ -1175,3 +1175,50 @@ def grid_bounds(ck, F, rule="FULL-RANGE"):
             ck.ob(rule, "stringify_reference|%s %s %d does not cut the grid" % (nm, op, c), not cuts,
                   "stringify_reference compares %s %s %d: the last %s of the grid falls on the other side of the test than the rest" % (nm, op, c, nm), f, l)
     ck.note("grid_bound_tests", n)
+
+
+def cut_skip_same_sheet(ck, F, rule="SPILL"):
+    """Cut of a dynamic-array anchor removes its whole spill block; the only cells it may skip are paste targets, which
+    are coordinates *on the target sheet*: in UserModel::paste_from_clipboard every membership test against `seen_cells`
+    is dominated by the `source_sheet == sheet` comparison."""
+    b = ck.need(F.one, "UserModel::paste_from_clipboard")
+    names = {b.local_name(l): l for l in range(len(b.locals)) if b.local_name(l)}
+    seen = names.get("seen_cells")
+    ck.ob(rule, "paste_from_clipboard|seen_cells", seen is not None, "local `seen_cells` not found (anchor lost?)", b.file, b.line)
+    if seen is None:
+        return
+    # edges on which source_sheet == sheet holds
+    eq_edges = []
+    for bi, blk in enumerate(b.blocks):
+        t = blk["t"]
+        if t["k"] != "switch" or t["ty"] != "bool":
+            continue
+        tr = b.trace(t["o"])
+        if tr["kind"] == "rv" and tr["rv"]["k"] == "bin" and tr["rv"]["op"] in ("Eq", "Ne"):
+            sa = {x[1] for x in sources(b, tr["rv"]["a"]) | sources(b, tr["rv"]["b"]) if x[0] == "param"}
+            ls = set()
+            for o in (tr["rv"]["a"], tr["rv"]["b"]):
+                p = op_place(o)
+                if p is not None and not place_proj(p):
+                    rv = b.def_rvalue(p["l"])
+                    q = op_place(rv["o"]) if rv is not None and rv["k"] == "use" else p
+                    if q is not None and not place_proj(q):
+                        ls.add(b.local_name(q["l"]))
+            if {"source_sheet", "sheet"} <= (ls | sa):
+                zero = [x for v, x in t["targets"] if v == "0"]
+                tgt = t["otherwise"] if tr["rv"]["op"] == "Eq" else (zero[0] if zero else None)
+                if tgt is not None:
+                    eq_edges.append(tgt)
+    k = 0
+    for bi, t in b.calls():
+        if (b.callee_q(t) or "").rsplit("::", 1)[-1] != "contains" or not t["args"]:
+            continue
+        rt = b.ref_target(t["args"][0])
+        if rt is None or place_proj(rt) or rt["l"] != seen:
+            continue
+        k += 1
+        f, l = b.loc(bi)
+        ck.ob(rule, "paste_from_clipboard|seen_cells test #%d under source_sheet == sheet" % k, any(b.dominates(e, bi) for e in eq_edges),
+              "paste_from_clipboard skips a source cell because its coordinates are a paste target without checking that source and target "
+              "sheet are the same: cutting a spilling anchor to another sheet leaves an orphan spill cell behind", f, l)
+    ck.ob(rule, "paste_from_clipboard|seen_cells tests", k >= 1, "no membership test against seen_cells found", b.file, b.line)
